@@ -359,20 +359,29 @@ false`: per leaf *non-decreasing* timestamps; raw renderings faithful), every co
 * a STREAM client of `T` that subscribed at *any* point of the run (`steps = pre ++ subscribe ::
   post`, fresh id) holds the same at the end.
 
-Proved so far: the whole ONCE clause (any query paths, no restriction on their length) for per-leaf
-increasing timestamps or unchanged re-sends (`wellFormed true`; `pipeline_faithful_once_partial`,
-`once_client_holds_expected`), by composing `collector_cache_holds_final_view` with
-`C05.once_static_exact`.  Missing, and why:
-* the same timestamp with *another* value (accepted unless the two notifications are
-  `proto.Equal`, which the model decides on raw renderings): needs `RawFaithful` threaded through
-  the run invariant as one more component (which update each stored leaf came from);
-* the STREAM clause is proved in `Props/C01Stream.lean` (`pipeline_faithful_stream_partial`) for `wellFormed true`
-  streams, no target literally named `*`, and `ExactStream` (values on which `value.Equal` is the identity: every
-  value without a float/double — `exactV_of_noFloat`), composing `C04Seq.stream_converges_partial` (the
-  sequential Subscribe model, every history).  Without `ExactStream` the literal statement is false of model and
-  code (`pipeline_faithful_refuted`): `+0.0` then `-0.0` is withheld as unchanged, a STREAM client keeps `+0.0`.
-  The correspondence checks the clause on the real code (component `e2e`, every subscription
-  point of the exhaustive scope, random ones elsewhere). -/
+Proved so far:
+* the whole ONCE clause **as stated** (`wellFormed false ∧ RawFaithful`, any query paths, no restriction
+  on their length): `pipeline_faithful_once_nondecreasing`, `pipeline_faithful_once_clause_holds` in
+  `Props/C01Same.lean`, by composing `collector_cache_holds_final_view_nondecreasing` with
+  `C05.once_static_exact`.  The same timestamp with *another* value is accepted unless the two
+  notifications are `proto.Equal`, which the model decides on raw renderings; the run invariant
+  (`Relay.Holds2`, `Lemmas/PipelineSame.lean`) carries `RawFaithful` as one more component (`Relay.From`:
+  every update stored outside `meta/` is an update of the target's own stream), so a `proto.Equal`
+  re-send has the stored value and rejecting it changes nothing.  `RawFaithful` on the updates' own
+  renderings is enough (the duplicate test compares more — also the prefix rendering — and so only
+  rejects less) and cannot be dropped (`once_fails_without_rawFaithful`).  The earlier theorems of this
+  file (`pipeline_faithful_once_partial`, `once_client_holds_expected`, `pipeline_faithful_partial`) are
+  the same for `wellFormed true` streams, where `RawFaithful` is not needed;
+* the STREAM clause under `wellFormed false ∧ RawFaithful` plus two hypotheses without which it is false
+  of model and code: `pipeline_faithful_stream_nondecreasing` (`Props/C01Same.lean`; for `wellFormed true`:
+  `pipeline_faithful_stream_partial` in `Props/C01Stream.lean`) — no target literally named `*`, and
+  `ExactStream` (values on which `value.Equal` is the identity: every value without a float/double —
+  `exactV_of_noFloat`), composing `C04Seq.stream_converges_partial` (the sequential Subscribe model,
+  every history).  Both clauses together: `pipeline_faithful_nondecreasing`.
+Not provable: the literal statement.  Without `ExactStream` it is false of model and code
+(`pipeline_faithful_refuted` in `Props/C01Stream.lean`): `+0.0` then `-0.0` is withheld as unchanged, a
+STREAM client keeps `+0.0`.  The correspondence checks the clause on the real code (component `e2e`,
+every subscription point of the exhaustive scope, random ones elsewhere). -/
 def pipeline_faithful : Prop :=
   ∀ (enc : String → String) (cfg : TargetCfg.Cfg), TargetCfg.validate cfg = .ok () →
   ∀ (steps : List Step), (∀ x ∈ senders steps, x ∈ TargetCfg.keys cfg.target) →
